@@ -15,6 +15,7 @@ import (
 	"github.com/git-lfs/git-lfs/v3/lfs"
 	"github.com/git-lfs/git-lfs/v3/tools"
 	"github.com/git-lfs/git-lfs/v3/tr"
+	"github.com/git-lfs/git-lfs/v3/verifhook"
 	"github.com/rubyist/tracerx"
 	"github.com/spf13/cobra"
 )
@@ -113,6 +114,7 @@ func fsckCommand(cmd *cobra.Command, args []string) {
 		if srcFile == os.DevNull {
 			continue
 		}
+		verifhook.Crash("fsck.move")
 		if err := os.Rename(srcFile, badFile); err != nil {
 			if os.IsNotExist(err) {
 				continue
